@@ -133,15 +133,17 @@ def search(
     if iterations < 1:
         raise ValueError("Number of iterations must be a positive int")
 
-    grown = grow(clique, graph, node_select=node_select)
-    swapped = swap(grown, graph, node_select=node_select)
+    # (a loop, not a recursion: the number of iterations is not limited by the recursion depth)
+    while True:
+        grown = grow(clique, graph, node_select=node_select)
+        swapped = swap(grown, graph, node_select=node_select)
 
-    iterations -= 1
+        iterations -= 1
 
-    if set(grown) == set(swapped) or iterations == 0:
-        return swapped
+        if set(grown) == set(swapped) or iterations == 0:
+            return swapped
 
-    return search(swapped, graph, iterations, node_select)
+        clique = swapped
 
 
 def grow(
